@@ -10,6 +10,15 @@ int main(void) {
     static char line[512];
     while (fgets(line, sizeof(line), stdin)) {
         char id[64]; unsigned wl, cs, ck, nd, ml; unsigned long long pl, di;
+        if (line[0] == 'S' && line[1] == ' ') {   /* S <id> <variant> <payload length> : ZSTD_writeSkippableFrame of bytes i*7+3 */
+            unsigned variant; unsigned long n; static BYTE src[4096], dst2[4200]; size_t r, i;
+            if (sscanf(line + 2, "%63s %u %lu", id, &variant, &n) != 3 || n > sizeof(src)) continue;
+            for (i = 0; i < n; i++) src[i] = (BYTE)(i * 7 + 3);
+            r = ZSTD_writeSkippableFrame(dst2, sizeof(dst2), src, n, variant);
+            if (ZSTD_isError(r)) { printf("%s ERR %s\n", id, ZSTD_getErrorName(r)); continue; }
+            printf("%s OK ", id); for (i = 0; i < r; i++) printf("%02x", dst2[i]); printf("\n");
+            continue;
+        }
         if (sscanf(line, "%63s %u %u %u %u %u %llu %llu", id, &wl, &cs, &ck, &nd, &ml, &pl, &di) != 8) continue;
         {   ZSTD_CCtx_params params; BYTE dst[ZSTD_FRAMEHEADERSIZE_MAX + 8]; size_t r, i;
             memset(&params, 0, sizeof(params));
